@@ -146,26 +146,27 @@ FaultyWrite(at, c, isPin) ==
     /\ last' = Act(IF isPin THEN "fpin" ELSE "funpin", at, "p1", c, "noack")
     /\ UNCHANGED <<members, status, data, pins, fsm, view, held>>
 
-\* the leader is shut down just before a follower submits: without a quorum left
-\* the call must fail; with a quorum a new leader may or may not commit it
-\* (out = "maybe": the real outcome decides, the script ends there)
-CrashWrite(at, c, isPin) ==
+\* the consensus component of q (the leader, or the submitting peer itself) has just been shut
+\* down - its Cluster object and RPC endpoints still serve - when `at` submits: without a quorum
+\* left nothing can be committed and the call must fail; with a quorum the rest of the cluster
+\* may or may not commit it (out = "maybe": the real outcome decides, the script ends there)
+CrashWrite(at, q, c, isPin) ==
     /\ cnt.ldr /\ "p1" \in members \cap Up
-    /\ at \in (members \cap Up) \ {"p1"} /\ Quorum(members)
+    /\ at \in members \cap Up /\ q \in {"p1", at} /\ Quorum(members)
     /\ cnt.ops < MaxOps /\ cnt.downs < MaxDowns
     /\ IF isPin THEN c \notin pins ELSE c \in pins
-    /\ status' = [status EXCEPT !["p1"] = "down"]
-    /\ held' = [held EXCEPT !["p1"] = pins]
-    /\ cnt' = [cnt EXCEPT !.ops = @ + 1, !.downs = @ + 1, !.ldr = FALSE]
-    /\ LET left == 2 * Cardinality((members \cap Up) \ {"p1"}) > Cardinality(members) IN
-       /\ last' = Act(IF isPin THEN "cpin" ELSE "cunpin", at, "p1", c, IF left THEN "maybe" ELSE "noack")
+    /\ status' = [status EXCEPT ![q] = "down"]
+    /\ held' = [held EXCEPT ![q] = pins]
+    /\ cnt' = [cnt EXCEPT !.ops = @ + 1, !.downs = @ + 1, !.ldr = @ /\ q # "p1"]
+    /\ LET left == 2 * Cardinality((members \cap Up) \ {q}) > Cardinality(members) IN
+       /\ last' = Act(IF isPin THEN "cpin" ELSE "cunpin", at, q, c, IF left THEN "maybe" ELSE "noack")
        /\ pins' \in IF left THEN {pins, IF isPin THEN pins \cup {c} ELSE pins \ {c}} ELSE {pins}
     /\ Settle(members, pins', status')
     /\ UNCHANGED <<members, data>>
 
 Next ==
     \/ \E at \in Peers, c \in Cids : FaultyWrite(at, c, TRUE) \/ FaultyWrite(at, c, FALSE)
-                                    \/ CrashWrite(at, c, TRUE) \/ CrashWrite(at, c, FALSE)
+    \/ \E at, q \in Peers, c \in Cids : CrashWrite(at, q, c, TRUE) \/ CrashWrite(at, q, c, FALSE)
     \/ \E at \in Peers, c \in Cids : Write(at, c, TRUE) \/ Write(at, c, FALSE)
     \/ \E p, via \in Peers : Join(p, via)
     \/ \E at, p \in Peers : PeerAddPresent(at, p) \/ PeerRemove(at, p)
